@@ -296,17 +296,20 @@ theorem translated_errreg_is_ready_follows_error (s : St) :
   unfold Gen.Tr.isReady St.ready
   cases s.phase <;> cases s.error <;> simp
 
-/-- `_check_started()`: nothing when the simulation task exists; otherwise one yield, and EdzedInvalidState
-    if it still does not exist afterwards -/
+/-- `_check_started()`: nothing when the simulation task exists; otherwise one yield -- at which the caller may
+    be cancelled (CancelledError propagates) --, and EdzedInvalidState if the task still does not exist afterwards -/
 theorem translated_errreg_check_started_is_model (env : Nat → St → St) (s : TS) :
     (callFn (TrE.checkStarted (csPrims env)) : M TS PyExc Unit Unit) s =
       if s.st.phase != .notStarted then (s, .next ())
+      else if s.cancelAt s.log.length then (s.await env .yield, .raise callerCancelled)
       else if (s.await env .yield).st.phase != .notStarted then (s.await env .yield, .next ())
       else (s.await env .yield, .raise .invalidState) := by
   unfold TrE.checkStarted callFn
   by_cases h : s.st.phase = .notStarted
-  · by_cases h2 : (s.await env .yield).st.phase = .notStarted <;>
-      simp [h, h2, bind_apply, get_apply, pure_apply, raise_apply, ret_apply]
+  · cases hx : s.cancelAt s.log.length
+    · by_cases h2 : (s.await env .yield).st.phase = .notStarted <;>
+        simp [h, h2, hx, awaitM, bind_apply, get_apply, pure_apply, raise_apply, ret_apply]
+    · simp [h, hx, awaitM, bind_apply, get_apply]
   · simp [h, bind_apply, get_apply, pure_apply, ret_apply]
 
 theorem translated_errreg_check_started_passes (env : Nat → St → St) (s : TS) (h : s.st.phase ≠ .notStarted) :
@@ -314,15 +317,17 @@ theorem translated_errreg_check_started_passes (env : Nat → St → St) (s : TS
   rw [translated_errreg_check_started_is_model]; simp [h]
 
 theorem translated_errreg_check_started_refuses (env : Nat → St → St) (s : TS) (h : s.st.phase = .notStarted)
-    (h2 : (env s.log.length s.st).phase = .notStarted) :
+    (h2 : (env s.log.length s.st).phase = .notStarted) (hr : s.cancelAt s.log.length = false) :
     (callFn (TrE.checkStarted (csPrims env)) : M TS PyExc Unit Unit) s = (s.await env .yield, .raise .invalidState) := by
-  rw [translated_errreg_check_started_is_model]; simp [h, h2, TS.await]
+  rw [translated_errreg_check_started_is_model]; simp [h, h2, hr, TS.await]
 
 /-- `shutdown()` of a started simulation IS the model's `shut` wake followed by `shutdownRaises`: up to
     `await self._simtask` exactly `abort(CancelledError('shutdown'))` is delivered (the model's `wakeStep … shut`:
     state and delivery log), and when the simulation task has ended -- whatever happened meanwhile -- the call
-    returns iff the recorded error is a cancellation, else re-raises the recorded error -/
-theorem translated_errreg_shutdown_is_model (env : Nat → St → St) (s : TS) (h : s.st.phase ≠ .notStarted) :
+    returns iff the recorded error is a cancellation, else re-raises the recorded error.
+    (`hr`: the caller is not cancelled while it awaits; see `translated_errreg_shutdown_cancelled_after_abort`) -/
+theorem translated_errreg_shutdown_is_model (env : Nat → St → St) (s : TS) (h : s.st.phase ≠ .notStarted)
+    (hr : s.cancelAt s.log.length = false) :
     TrE.shutdown (sdPrims env false) s =
       let s1 : TS := { s with st := (wakeStep s.st .shut).1, dels := s.dels ++ (wakeStep s.st .shut).2 }
       (s1.await env .simtask,
@@ -330,7 +335,7 @@ theorem translated_errreg_shutdown_is_model (env : Nat → St → St) (s : TS) (
        | some e => .raise (.err e)
        | none => .next ()) := by
   unfold TrE.shutdown
-  simp [h, translated_errreg_check_started_passes, bind_apply, get_apply, pure_apply, tryExcept_apply, abortP, awaitSim, wakeStep,
+  simp [h, hr, translated_errreg_check_started_passes, bind_apply, get_apply, pure_apply, tryExcept_apply, abortP, awaitSim, wakeStep,
     runForeverRaises, shutdownRaises]
   cases he : ((TS.await env Aw.simtask { s with st := s.st.abort (Err.cancelled 1), dels := s.dels ++ [Err.cancelled 1] }).st.error) with
   | none => simp
@@ -339,11 +344,27 @@ theorem translated_errreg_shutdown_is_model (env : Nat → St → St) (s : TS) (
 /-- shutdown() of a simulation that was never started (and does not start during the yield either):
     EdzedInvalidState, nothing is delivered -- the model's `shut` wake in phase `notStarted` changes nothing -/
 theorem translated_errreg_shutdown_not_started (env : Nat → St → St) (cur : Bool) (s : TS)
-    (h : s.st.phase = .notStarted) (h2 : (env s.log.length s.st).phase = .notStarted) :
+    (h : s.st.phase = .notStarted) (h2 : (env s.log.length s.st).phase = .notStarted)
+    (hr : s.cancelAt s.log.length = false) :
     TrE.shutdown (sdPrims env cur) s = (s.await env .yield, .raise .invalidState) ∧
     wakeStep s.st .shut = (s.st, []) := by
   unfold TrE.shutdown
-  simp [h, h2, translated_errreg_check_started_refuses, bind_apply, wakeStep]
+  simp [h, h2, hr, translated_errreg_check_started_refuses, bind_apply, wakeStep]
+
+/-- the caller of shutdown() is cancelled while it awaits the simulation task: `abort(CancelledError('shutdown'))`
+    was ALREADY delivered (the model's `shut` wake: state and delivery log), asyncio forwards the cancellation to the
+    awaited task (the model's `rawCancel`), and -- what the code does -- the `except CancelledError: pass` meant for
+    the simulation's own cancellation swallows the caller's, so shutdown() returns normally although the
+    simulation task may still be cleaning up -/
+theorem translated_errreg_shutdown_cancelled_after_abort (env : Nat → St → St) (s : TS) (h : s.st.phase ≠ .notStarted)
+    (hx : s.cancelAt s.log.length = true) :
+    (TrE.shutdown (sdPrims env false) s =
+      (let s1 : TS := { s with st := (wakeStep s.st .shut).1, dels := s.dels ++ (wakeStep s.st .shut).2 }
+       ({ s1.await env .simtask with st := (step (s1.await env .simtask).st .rawCancel).1 }, .next ()))) ∧
+    (TrE.shutdown (sdPrims env false) s).1.dels = s.dels ++ [.cancelled 1] := by
+  unfold TrE.shutdown
+  simp [h, hx, translated_errreg_check_started_passes, bind_apply, get_apply, pure_apply, tryExcept_apply, abortP, awaitSim,
+    wakeStep, callerCancelled, TS.await]
 
 /-- shutdown() called from the simulation task itself is refused BEFORE anything is delivered -/
 theorem translated_errreg_shutdown_refused_in_simtask (env : Nat → St → St) (s : TS) (h : s.st.phase ≠ .notStarted) :
@@ -354,7 +375,8 @@ theorem translated_errreg_shutdown_refused_in_simtask (env : Nat → St → St) 
 /-- `wait_init()` on a started simulation: AttributeError when `_init_done` does not exist (the helper task is
     created OUTSIDE the `try`, nothing is awaited); otherwise it waits once, cancels the helper task in any
     case, and raises EdzedInvalidState iff the simulation task is done or an error is recorded by then -/
-theorem translated_errreg_wait_init_is_model (env : Nat → St → St) (s : TS) (h : s.st.phase ≠ .notStarted) :
+theorem translated_errreg_wait_init_is_model (env : Nat → St → St) (s : TS) (h : s.st.phase ≠ .notStarted)
+    (hr : s.cancelAt s.log.length = false) :
     TrE.waitInit (wiPrims env) s =
       match s.initDone with
       | none => (s, .raise .attributeError)
@@ -365,20 +387,39 @@ theorem translated_errreg_wait_init_is_model (env : Nat → St → St) (s : TS) 
   cases hi : s.initDone with
   | none => simp [h, hi, translated_errreg_check_started_passes, bind_apply]
   | some b =>
-    simp [h, hi, translated_errreg_check_started_passes, bind_apply, get_apply, pure_apply, raise_apply, tryFinally_apply, TS.await]
+    simp [h, hi, hr, awaitM, translated_errreg_check_started_passes, bind_apply, get_apply, pure_apply, raise_apply, tryFinally_apply, TS.await]
     by_cases hd : (env s.log.length s.st).phase = .done
     · cases he : (env s.log.length s.st).error with
       | none => simp [hd, he, bind_apply, get_apply, pure_apply, raise_apply]
       | some e => cases hc : e.isCancel <;> simp [hd, he, hc, bind_apply, get_apply, pure_apply, raise_apply]
     · cases he : (env s.log.length s.st).error <;> simp [hd, he, bind_apply, get_apply, pure_apply, raise_apply]
 
+/-- the helper task created by wait_init() is cancelled on EVERY exit: for every environment and both outcomes of
+    the await (returned / the caller was cancelled while waiting), the helper is cancelled when wait_init() is left;
+    and when the await was cancelled, the CancelledError propagates, nothing else having happened to the state than
+    the environment's step and the helper's cancellation (the `finally:` -- two statements in sequence would skip
+    the cancellation exactly here, as edzed.run() cancels its supporting coroutines) -/
+theorem translated_errreg_wait_init_cancels_helper_on_every_exit (env : Nat → St → St) (s : TS) (b : Bool)
+    (h : s.st.phase ≠ .notStarted) (hi : s.initDone = some b) :
+    (TrE.waitInit (wiPrims env) s).1.waiter = some false ∧
+    (s.cancelAt s.log.length = true →
+      TrE.waitInit (wiPrims env) s = ({ s.await env .waitInit with waiter := some false }, .raise callerCancelled)) := by
+  cases hx : s.cancelAt s.log.length
+  · rw [translated_errreg_wait_init_is_model env s h hx, hi]
+    simp
+  · have : TrE.waitInit (wiPrims env) s = ({ s.await env .waitInit with waiter := some false }, .raise callerCancelled) := by
+      unfold TrE.waitInit
+      simp [h, hi, hx, awaitM, translated_errreg_check_started_passes, bind_apply, pure_apply, tryFinally_apply, TS.await]
+    rw [this]
+    simp
+
 /-- … hence, with the invariant `Stopped` (a finished simulation has an error): wait_init() returns normally
     iff the circuit is ready when the wait is over -/
 theorem translated_errreg_wait_init_returns_iff_ready (env : Nat → St → St) (s : TS) (b : Bool)
-    (h : s.st.phase ≠ .notStarted) (hi : s.initDone = some b)
+    (h : s.st.phase ≠ .notStarted) (hi : s.initDone = some b) (hr : s.cancelAt s.log.length = false)
     (hn : (env s.log.length s.st).phase ≠ .notStarted) (hs : Stopped (env s.log.length s.st)) :
     ((TrE.waitInit (wiPrims env) s).2 = .next ()) ↔ (env s.log.length s.st).ready = true := by
-  rw [translated_errreg_wait_init_is_model env s h, hi]
+  rw [translated_errreg_wait_init_is_model env s h hr, hi]
   simp only [TS.await, St.ready]
   by_cases hd : (env s.log.length s.st).phase = .done
   · have := hs (Or.inr (Or.inr hd))
@@ -463,19 +504,20 @@ theorem translated_errreg_run_collect_supporting (env : Nat → St → St) (n : 
 
 
 /-- the whole collection loop of run(): the simulation task first, then the supporting tasks in order -/
-theorem translated_errreg_run_collect_is_runRaises (env : Nat → St → St) (n : Nat) (s : TS) :
+theorem translated_errreg_run_collect_is_runRaises (env : Nat → St → St) (n : Nat) (s : TS)
+    (hr : s.cancelAt s.log.length = false) :
     TrE.run_for2 (runPrims env) (coros n) (((-1 : Int), Tk.sim) :: (List.range' 0 n).map fun (i : Nat) => ((i : Int), Tk.sup i)) none s =
       (s.await env .simtask, .next ((runRaises (s.await env .simtask).st n).map PyExc.err)) := by
   unfold TrE.run_for2
   have hc := fun re => translated_errreg_run_collect_supporting env n n 0 re (s.await env .simtask) (by omega)
   cases he : (s.await env .simtask).st.error with
   | none =>
-    simp [bind_apply, pure_apply, tryExcept_apply, awaitSim, runForeverRaises, he, hc, orElseSup, runRaises, shutdownRaises,
+    simp [bind_apply, pure_apply, tryExcept_apply, awaitSim, hr, runForeverRaises, he, hc, orElseSup, runRaises, shutdownRaises,
       firstSupError_eq, List.range_eq_range']
     congr 1; funext i; simp only [Function.comp_apply]; cases supFailure (TS.await env Aw.simtask s).st.supDone i <;> rfl
   | some e =>
     cases hk : e.isCancel <;>
-    simp [bind_apply, pure_apply, tryExcept_apply, awaitSim, runForeverRaises, he, hk, hc, orElseSup, runRaises, shutdownRaises,
+    simp [bind_apply, pure_apply, tryExcept_apply, awaitSim, hr, runForeverRaises, he, hk, hc, orElseSup, runRaises, shutdownRaises,
       firstSupError_eq, List.range_eq_range']
     congr 1; funext i; simp only [Function.comp_apply]; cases supFailure (TS.await env Aw.simtask s).st.supDone i <;> rfl
 
@@ -496,15 +538,20 @@ theorem translated_errreg_sig_handler_is_sigterm (sc : Bool) (s : TS) :
     task at position 0 is not (the model's `runWaiter`) --, after one yield `abort(CancelledError('shutdown'))`
     is delivered iff the simulation task is not done (the model's `runAbort`: state and delivery log), and what
     run() raises at the end is the model's `runRaises`: the simulation's error unless it is a cancellation,
-    else the error of the first failing supporting task in the order of the arguments, else nothing -/
-theorem translated_errreg_run_is_model (env : Nat → St → St) (n : Nat) (c : Bool) (s0 : St)
-    (hn : 0 < n) (h1 : (env 0 s0).phase ≠ .done) :
-    TrE.run (runPrims env) (coros n) c { st := s0 } =
+    else the error of the first failing supporting task in the order of the arguments, else nothing.
+    `cx`: which awaits of run() are interrupted by a cancellation of run()'s own task -- a cancellation inside
+    `asyncio.wait` (cx 1) is swallowed by the `except CancelledError: pass` around it, run() goes on to stop
+    everything exactly as if the wait had returned; the other awaits are taken as returning -/
+theorem translated_errreg_run_is_model (env : Nat → St → St) (cx : Nat → Bool) (n : Nat) (c : Bool) (s0 : St)
+    (hn : 0 < n) (h1 : (env 0 s0).phase ≠ .done)
+    (hx0 : cx 0 = false) (hx2 : cx 2 = false) (hx3 : cx 3 = false) :
+    TrE.run (runPrims env) (coros n) c { st := s0, cancelAt := cx } =
       ({ st := (runModel env s0).1
          dels := (runModel env s0).2
          log := [(.yield, c), (.wait, c), (.yield, c), (.simtask, false)]
          signo := c, saved := (if c then some false else none), handler := false, waited := true
-         cancelled := ((List.range n).filter fun i => !((env 1 (env 0 s0)).supDone.any (·.1 == i))).map Tk.sup },
+         cancelled := ((List.range n).filter fun i => !((env 1 (env 0 s0)).supDone.any (·.1 == i))).map Tk.sup
+         cancelAt := cx },
        outcomeOf (runRaises (runModel env s0).1 n)) := by
   have hlen : (coros n).length = n := by simp [coros]
   have hne : (coros n).isEmpty = false := by cases n with | zero => omega | succ n => simp [coros, List.replicate_succ]
@@ -513,16 +560,40 @@ theorem translated_errreg_run_is_model (env : Nat → St → St) (n : Nat) (c : 
     rw [TrE.enumFrom, List.range_eq_range']
     exact congrArg _ (enumFrom_sups n 0)
   unfold TrE.run
-  by_cases hd : (env 2 ((env 1 (env 0 s0)).addWake .runAbort)).phase = .done <;> cases c <;>
-  simp [withCtx_apply, bind_apply, tryFinally_apply, callFn, translated_errreg_sig_enter_is_model, translated_errreg_sig_exit_returns_false, translated_errreg_sig_exit_without_signal, hne, hlen, pure_apply, get_apply,
-    tryExcept_apply, taskDone, h1, hd, TS.await, translated_errreg_run_stop_loop_cancels_unfinished, henum, abortP, runModel, wakeStep, translated_errreg_run_collect_is_runRaises]
+  by_cases hd : (env 2 ((env 1 (env 0 s0)).addWake .runAbort)).phase = .done <;> cases c <;> cases hx1 : cx 1 <;>
+  simp [withCtx_apply, bind_apply, tryFinally_apply, callFn, translated_errreg_sig_enter_is_model,
+    translated_errreg_sig_exit_returns_false, translated_errreg_sig_exit_without_signal, hne, hlen, pure_apply, get_apply,
+    tryExcept_apply, taskDone, h1, hd, TS.await, awaitM, callerCancelled, hx0, hx1, hx2, hx3,
+    translated_errreg_run_stop_loop_cancels_unfinished, henum, abortP, runModel, wakeStep,
+    translated_errreg_run_collect_is_runRaises]
   all_goals (generalize runRaises _ n = r; cases r <;> rfl)
+
+/-- run()'s own task is cancelled at the yield after "stop everything": the CancelledError leaves run() through the
+    `with` (the SIGTERM handler is removed), `abort(CancelledError('shutdown'))` is NOT delivered and no task is
+    awaited -- what the code does; the supporting tasks were cancelled before -/
+theorem translated_errreg_run_cancelled_at_second_yield (env : Nat → St → St) (cx : Nat → Bool) (n : Nat) (c : Bool) (s0 : St)
+    (hn : 0 < n) (h1 : (env 0 s0).phase ≠ .done) (hx0 : cx 0 = false) (hx2 : cx 2 = true) :
+    TrE.run (runPrims env) (coros n) c { st := s0, cancelAt := cx } =
+      ({ st := env 2 (wakeStep (env 1 (env 0 s0)) .runWaiter).1
+         log := [(.yield, c), (.wait, c), (.yield, c)]
+         signo := c, saved := (if c then some false else none), handler := false, waited := true
+         cancelled := ((List.range n).filter fun i => !((env 1 (env 0 s0)).supDone.any (·.1 == i))).map Tk.sup
+         cancelAt := cx },
+       .raise callerCancelled) := by
+  have hlen : (coros n).length = n := by simp [coros]
+  have hne : (coros n).isEmpty = false := by cases n with | zero => omega | succ n => simp [coros, List.replicate_succ]
+  unfold TrE.run
+  cases c <;> cases hx1 : cx 1 <;>
+  simp [withCtx_apply, bind_apply, tryFinally_apply, callFn, translated_errreg_sig_enter_is_model,
+    translated_errreg_sig_exit_returns_false, translated_errreg_sig_exit_without_signal, hne, hlen, pure_apply, get_apply,
+    tryExcept_apply, taskDone, h1, TS.await, awaitM, callerCancelled, hx0, hx1, hx2,
+    translated_errreg_run_stop_loop_cancels_unfinished, wakeStep]
 
 /-- run() never cancels the simulation task directly (it would abort the clean-up) -/
 theorem translated_errreg_run_skips_simtask (env : Nat → St → St) (n : Nat) (c : Bool) (s0 : St)
     (hn : 0 < n) (h1 : (env 0 s0).phase ≠ .done) :
     Tk.sim ∉ (TrE.run (runPrims env) (coros n) c { st := s0 }).1.cancelled := by
-  rw [translated_errreg_run_is_model env n c s0 hn h1]
+  rw [translated_errreg_run_is_model env (fun _ => false) n c s0 hn h1 rfl rfl rfl]
   simp
 
 /-- run() without supporting coroutines: run_forever is awaited in the caller's own task, a cancellation is a
@@ -538,11 +609,11 @@ theorem translated_errreg_run_without_coroutines (env : Nat → St → St) (c : 
   | none =>
     cases c <;>
     simp [withCtx_apply, bind_apply, tryFinally_apply, callFn, translated_errreg_sig_enter_is_model, translated_errreg_sig_exit_returns_false, translated_errreg_sig_exit_without_signal, pure_apply, get_apply,
-      tryExcept_apply, TS.await, awaitSim, runForeverRaises, he, ret_apply, runRaises, shutdownRaises, firstSupError]
+      tryExcept_apply, TS.await, awaitSim, awaitM, runForeverRaises, he, ret_apply, runRaises, shutdownRaises, firstSupError]
   | some e =>
     cases hk : e.isCancel <;> cases c <;>
     simp [withCtx_apply, bind_apply, tryFinally_apply, callFn, translated_errreg_sig_enter_is_model, translated_errreg_sig_exit_returns_false, translated_errreg_sig_exit_without_signal, pure_apply, get_apply,
-      tryExcept_apply, TS.await, awaitSim, runForeverRaises, he, hk, ret_apply, raise_apply, runRaises, shutdownRaises, firstSupError]
+      tryExcept_apply, TS.await, awaitSim, awaitM, runForeverRaises, he, hk, ret_apply, raise_apply, runRaises, shutdownRaises, firstSupError]
 
 /-- the simulation task is already finished after the first yield: its error is re-raised (a cancellation:
     RuntimeError), no supporting task is ever created, the SIGTERM handler is removed -/
@@ -559,11 +630,11 @@ theorem translated_errreg_run_simtask_dead_early (env : Nat → St → St) (n : 
   | none =>
     cases c <;>
     simp [withCtx_apply, bind_apply, tryFinally_apply, callFn, translated_errreg_sig_enter_is_model, translated_errreg_sig_exit_returns_false, translated_errreg_sig_exit_without_signal, pure_apply, get_apply, hne,
-      tryExcept_apply, TS.await, taskDone, h1, runForeverRaises, he, raise_apply, shutdownRaises]
+      tryExcept_apply, TS.await, awaitM, taskDone, h1, runForeverRaises, he, raise_apply, shutdownRaises]
   | some e =>
     cases hk : e.isCancel <;> cases c <;>
     simp [withCtx_apply, bind_apply, tryFinally_apply, callFn, translated_errreg_sig_enter_is_model, translated_errreg_sig_exit_returns_false, translated_errreg_sig_exit_without_signal, pure_apply, get_apply, hne,
-      tryExcept_apply, TS.await, taskDone, h1, runForeverRaises, he, hk, raise_apply, shutdownRaises]
+      tryExcept_apply, TS.await, awaitM, taskDone, h1, runForeverRaises, he, hk, raise_apply, shutdownRaises]
 
 /-- abort() before the start: the translated `run_forever` still registers the task (`_simtask`), raises the
     recorded error INSIDE its try block (so that it is the task's own error and `shutdown()` re-raises it), starts
@@ -698,7 +769,7 @@ theorem translated_errreg_wait_init_after_abort_before_start (sc : RfScript) (en
       TrE.waitInit (wiPrims env) s' = (s', .raise .attributeError) ∧
       waitInitReply s0 sc.initErr = .attributeError := by
   refine ⟨_, translated_errreg_run_forever_abort_before_start sc s0 e0 hp he hy, rfl, ?_, by simp [waitInitReply, he]⟩
-  rw [translated_errreg_wait_init_is_model]
+  rw [translated_errreg_wait_init_is_model (hr := rfl)]
   have hph : (sc.envYield (step s0 (.start sc.initErr)).1).phase = .sleep0 := by
     rw [(hy _).2, start_pre_error s0 _ e0 hp he]; simp
   have := (wake_sleep0 _ hph).2
@@ -720,7 +791,7 @@ theorem translated_errreg_wait_init_after_failed_start (sc : RfScript) (env : Na
   have hd := rfModel_done sc s0 hp he hs (by simp [hie]) (fun s => (hy s).2) (fun s => (hz s).2)
   refine ⟨_, rfl, ?_, ?_, by simp [waitInitReply, he, hie]⟩
   · rw [hm.1]; simp [hie]
-  · rw [hm.1, translated_errreg_wait_init_is_model _ _ (by simp [hd])]
+  · rw [hm.1, translated_errreg_wait_init_is_model _ _ (by simp [hd]) rfl]
     have hsome : (rfModel sc s0).error.isSome = true := hm.2
     have := henv 0 (rfModel sc s0) hsome
     simp [hie, TS.await, this]
@@ -729,9 +800,10 @@ theorem translated_errreg_wait_init_after_failed_start (sc : RfScript) (env : Na
     is recorded and the task is running when the wait is over -/
 theorem translated_errreg_wait_init_of_running_simulation (env : Nat → St → St) (s : TS) (b : Bool)
     (h : s.st.phase ≠ .notStarted) (hi : s.initDone = some b)
-    (he : (env s.log.length s.st).error = none) (hd : (env s.log.length s.st).phase ≠ .done) (s0 : St) (h0 : s0.error = none) :
+    (he : (env s.log.length s.st).error = none) (hd : (env s.log.length s.st).phase ≠ .done) (s0 : St) (h0 : s0.error = none)
+    (hr : s.cancelAt s.log.length = false) :
     (TrE.waitInit (wiPrims env) s).2 = .next () ∧ waitInitReply s0 none = .ok := by
-  rw [translated_errreg_wait_init_is_model env s h, hi]
+  rw [translated_errreg_wait_init_is_model env s h hr, hi]
   simp [TS.await, he, hd, waitInitReply, h0]
 
 /-- non-vacuity of the hypotheses of `translated_errreg_run_forever_is_model_partial` and
@@ -760,7 +832,7 @@ example :
     (TrE.run (runPrims exampleEnv) (coros 2) true { st := { runMode := true } }).2 = .raise (.err (.exc 7)) ∧
     (TrE.run (runPrims exampleEnv) (coros 2) true { st := { runMode := true } }).1.dels = [.cancelled 1] ∧
     (TrE.run (runPrims exampleEnv) (coros 2) true { st := { runMode := true } }).1.st.error = some (.cancelled 1) := by
-  have h := translated_errreg_run_is_model exampleEnv 2 true { runMode := true } (by decide) (by decide +kernel)
+  have h := translated_errreg_run_is_model exampleEnv (fun _ => false) 2 true { runMode := true } (by decide) (by decide +kernel) rfl rfl rfl
   have h1 : runRaises (runModel exampleEnv { runMode := true }).1 2 = some (.exc 7) := by decide +kernel
   have h2 : (runModel exampleEnv { runMode := true }).2 = [.cancelled 1] := by decide +kernel
   have h3 : (runModel exampleEnv { runMode := true }).1.error = some (.cancelled 1) := by decide +kernel
